@@ -14,7 +14,6 @@ pub const EP_NAMES: [&str; N_EP] = ["IDLProg", "IDLType", "IDLTypes", "IDLInitAr
 /// bump when the meaning of the outcome vector changes
 pub const ENCODING_VERSION: u8 = 3;
 pub const SLOTS: usize = 4;
-pub const SLOT_NAMES: [&str; SLOTS] = ["parse", "follow", "diag", "pretty"];
 
 // slot 0 (parse):  1 Ok, 2 Err, 3 panic
 // slot 1 (follow): 0 n/a, 1 Ok, 2 Err (type check / annotation rejected), 3 panic
@@ -192,9 +191,16 @@ fn on_error(ep: usize, input: &str, e: &Error, o: &mut Obs) {
         o.display_skipped += 1;
     } else {
         o.calls += 1;
-        if let Err(p) = call(ep, "display", || e.to_string()) {
-            o.panic(ep, "display", p);
-            o.set(ep, 2, PANIC);
+        match call(ep, "display", || e.to_string()) {
+            Err(p) => {
+                o.panic(ep, "display", p);
+                o.set(ep, 2, PANIC);
+            }
+            Ok(text) => {
+                if STAGE_TRACE.load(std::sync::atomic::Ordering::Relaxed) {
+                    eprintln!("ERRTEXT {}: {:?}", EP_NAMES[ep], text);
+                }
+            }
         }
     }
     o.calls += 1;
